@@ -652,4 +652,152 @@ theorem run_take (net : Net W) (σ : Nat → W → Option W) (μ : Nat → List 
     unfold obsOf
     rw [← hs.2, ← hs.1, readOutputs_take net _ _ hu.outs]
 
+/-! ## D. lengths, and what `Flush` does to the first `n` cells -/
+
+theorem length_setOuts (ls : List (NLink W)) (vs : List W) (s : St W) : (setOuts ls vs s).length = s.length := by
+  induction ls generalizing vs s with
+  | nil => simp [setOuts]
+  | cons l ls ih =>
+    cases vs with
+    | nil => simp [setOuts]
+    | cons v vs => unfold setOuts; rw [ih]; simp
+
+theorem length_activateModule (μ : Nat → List W → Option (List W)) (cn : NNodeS W) (s : St W) :
+    (activateModule μ cn s).1.length = s.length := by
+  unfold activateModule
+  cases μ cn.act (moduleInputs cn s) with
+  | none => rfl
+  | some outs =>
+    simp only
+    split
+    · rfl
+    · exact length_setOuts ..
+
+theorem length_sweep3Aux (μ : Nat → List W → Option (List W)) (cs : List (NNodeS W)) (i : Nat) (s : St W) :
+    (sweep3Aux μ cs i s).1.length = s.length := by
+  induction cs generalizing i s with
+  | nil => rfl
+  | cons cn cs ih =>
+    unfold sweep3Aux
+    have ha := length_activateModule μ cn (upd s i (fun x => { x with isActive := false }))
+    rcases hs : activateModule μ cn (upd s i (fun x => { x with isActive := false })) with ⟨s2, e⟩
+    rw [hs] at ha
+    simp only [length_upd] at ha
+    cases e with
+    | some e => exact ha
+    | none => simp only; rw [ih]; simpa using ha
+
+theorem length_sweeps (net : Net W) (σ : Nat → W → Option W) (μ : Nat → List W → Option (List W)) (s : St W) :
+    (sweeps net σ μ s).1.length = s.length := by
+  unfold sweeps SolverMod.sweep1 sweep2 sweep3
+  have h2 := length_sweep2Aux σ net.nodes 0 (sweep1Aux (flat net) net.nodes 0 s)
+  rw [length_sweep1Aux] at h2
+  rcases hs : sweep2Aux σ net.nodes 0 (sweep1Aux (flat net) net.nodes 0 s) with ⟨s2, e⟩
+  rw [hs] at h2
+  cases e with
+  | some e => exact h2
+  | none => simp only; rw [length_sweep3Aux]; exact h2
+
+theorem length_actLoop (net : Net W) (σ : Nat → W → Option W) (μ : Nat → List W → Option (List W)) (maxSteps : Int)
+    (fuel abort : Nat) (one : Bool) (s : St W) :
+    (SolverMod.actLoop net σ μ maxSteps fuel abort one s).1.length = s.length := by
+  induction fuel generalizing abort one s with
+  | zero => rfl
+  | succ fuel ih =>
+    unfold SolverMod.actLoop
+    split
+    · split
+      · rfl
+      · have h2 := length_sweeps net σ μ s
+        rcases hs : sweeps net σ μ s with ⟨s2, e⟩
+        rw [hs] at h2
+        cases e with
+        | some e => exact h2
+        | none => simp only; rw [ih]; exact h2
+    · rfl
+
+theorem length_activateSteps (net : Net W) (σ : Nat → W → Option W) (μ : Nat → List W → Option (List W)) (n : Int)
+    (s : St W) : (SolverMod.activateSteps net σ μ n s).1.length = s.length := by
+  unfold SolverMod.activateSteps
+  split
+  · rfl
+  · exact length_actLoop ..
+
+theorem length_fwdLoop (net : Net W) (σ : Nat → W → Option W) (μ : Nat → List W → Option (List W)) (n : Int) (k : Nat)
+    (res : Bool) (s : St W) : (SolverMod.fwdLoop net σ μ n k res s).1.length = s.length := by
+  induction k generalizing res s with
+  | zero => rfl
+  | succ k ih =>
+    unfold SolverMod.fwdLoop
+    have ha := length_activateSteps net σ μ n s
+    rcases hs : SolverMod.activateSteps net σ μ n s with ⟨s', r, e⟩
+    rw [hs] at ha
+    cases e with
+    | some e => exact ha
+    | none => simp only; rw [ih]; exact ha
+
+theorem length_forwardSteps (net : Net W) (σ : Nat → W → Option W) (μ : Nat → List W → Option (List W)) (n : Int)
+    (s : St W) : (SolverMod.forwardSteps net σ μ n s).1.length = s.length := by
+  unfold SolverMod.forwardSteps
+  split
+  · rfl
+  · exact length_fwdLoop ..
+
+theorem length_flushN (n : Nat) (s : St W) : (flushN n s).1.length = s.length := by
+  induction n generalizing s with
+  | zero => rfl
+  | succ n ih =>
+    cases s with
+    | nil => rfl
+    | cons a l =>
+      unfold flushN
+      simp only
+      split
+      · rfl
+      · simp [ih]
+
+theorem length_step (net : Net W) (σ : Nat → W → Option W) (μ : Nat → List W → Option (List W)) (s : St W)
+    (op : Op W) : (SolverMod.step net σ μ s op).1.length = s.length := by
+  cases op with
+  | load xs =>
+    simp only [SolverMod.step, SolverMod.loadSensors, Solver.loadSensors]
+    split
+    · exact length_loadEq ..
+    · exact length_loadNe ..
+  | activate n => exact length_activateSteps ..
+  | forward n => exact length_forwardSteps ..
+  | recursive =>
+    simp only [SolverMod.step, SolverMod.recursiveSteps]
+    split
+    · rfl
+    · simp [length_forwardSteps, length_setVisited]
+  | relax => rfl
+  | flush => exact length_flushN _ s
+
+theorem length_run (net : Net W) (σ : Nat → W → Option W) (μ : Nat → List W → Option (List W)) (ops : List (Op W))
+    (s : St W) : (SolverMod.run net σ μ ops s).1.length = s.length := by
+  induction ops generalizing s with
+  | nil => rfl
+  | cons op ops ih => simp [SolverMod.run, ih, length_step]
+
+/-- `Network.Flush` succeeds and replaces exactly the first `n` cells by their `Flushback` -/
+theorem flushN_eq (hz : Scalar.lt (Scalar.zero : W) Scalar.zero = false) (n : Nat) (s : St W) :
+    flushN n s = ((s.take n).map flushback ++ s.drop n, true, none) := by
+  induction n generalizing s with
+  | zero => simp [flushN]
+  | succ n ih =>
+    cases s with
+    | nil => simp [flushN]
+    | cons a l => simp [flushN, flushCheckFails_flushback hz, ih]
+
+/-- the control-node cells survive `Flush` unchanged -/
+theorem flushN_drop (hz : Scalar.lt (Scalar.zero : W) Scalar.zero = false) (n : Nat) (s : St W) :
+    (flushN n s).1.drop n = s.drop n := by
+  induction n generalizing s with
+  | zero => simp [flushN]
+  | succ n ih =>
+    cases s with
+    | nil => simp [flushN]
+    | cons a l => simp [flushN, flushCheckFails_flushback hz, ih]
+
 end GoNeat.SolverMod
